@@ -588,9 +588,9 @@ Definition sess_record (g : cfg) (s : server) (c : conn) (ss : session) (r : req
                 match p with
                 | SPUDP =>
                     if negb (r_udp_write_ok r)
-                    then (* sm.start() failed: state is RECORD, the writer exists, the timer is not armed *)
-                      Some (s, mkSess (s_id ss) (s_ip ss) (s_conns ss) SRecord (s_tr ss) (s_medias ss) (s_path ss)
-                                      (s_stream ss) (s_announced ss) (s_tcpconn ss) true (s_timer ss), st400, RErr)
+                    then (* sm.start() failed (medias are started before the state changes, fix ba05e77):
+                            the started medias are stopped, the writer is destroyed, the state stays PreRecord *)
+                      Some (s, ss_with_writer ss false, st400, RErr)
                     else
                       let '(a, b) := start_record (s_ip ss) (s_id ss) (s_medias ss) (v_rtp s) (v_rtcp s) in
                       Some (mkSrv (v_conns s) (v_sess s) (v_readers s) (v_active s) (v_mcount s) (v_mwriters s) a b (v_next s),
